@@ -131,6 +131,23 @@ theorem extractExitCode_paren (t : List Char) : LineParser.extractExitCode (t ++
       simp
   · rfl
 
+/-- the generator's test `is_exit_code` is the parser's `EXIT_CODE_EXPRESSION.is_match` -/
+theorem isExitCodeShaped_eq_form (t : List Char) : isExitCodeShaped t = LineParser.isExitCodeForm t := rfl
+
+theorem isExitCodeForm_paren (t : List Char) : LineParser.isExitCodeForm (t ++ [')']) = false := by
+  unfold LineParser.isExitCodeForm
+  split
+  · rename_i rest heq
+    cases t with
+    | nil => simp at heq
+    | cons a r =>
+      have hr : rest = r ++ [')'] := by
+        have := (List.cons.inj heq).2
+        exact this.symm
+      subst hr
+      simp
+  · rfl
+
 theorem extractExitCode_of_not_shaped {t : List Char} (h : isExitCodeShaped t = false) :
     LineParser.extractExitCode t = none := by
   unfold isExitCodeShaped at h
@@ -290,7 +307,8 @@ an expectation (neither `$ `/`> ` nor an exit code), and it parses to an unquant
 structure LineOK (P : Params) (l : List UInt8) (t : List Char) : Prop where
   no_nl : '\n' ∉ t
   no_lead : commandLead t = none
-  no_exit : LineParser.extractExitCode t = none
+  /-- not of the form `^\[[0-9]+\]$`: neither an exit code nor the error `exitCodeOutOfRange` -/
+  no_exit : LineParser.isExitCodeForm t = false
   /-- `str::lines()` would drop a final carriage return -/
   no_cr : t.getLast? ≠ some '\r'
   parses : ∃ e, parse P t = .ok e ∧ e.optional = false ∧ e.multiline = false ∧
@@ -307,7 +325,7 @@ theorem kindMod_no_nl (k : Grammar.Kind) : '\n' ∉ kindMod k := by cases k <;> 
 
 /-- text followed by ` (<kind>)`: one line, no exit code, parsed as that kind made from the text -/
 theorem kindMod_line {P : Params} (hP : StdParams P) (p : List Char) (k : Grammar.Kind) (hnl : '\n' ∉ p) :
-    '\n' ∉ p ++ kindMod k ∧ LineParser.extractExitCode (p ++ kindMod k) = none ∧
+    '\n' ∉ p ++ kindMod k ∧ LineParser.isExitCodeForm (p ++ kindMod k) = false ∧
     parse P (p ++ kindMod k) = match makeRule P k p with
       | none => .error .makeError
       | some b => .ok ⟨k, b, false, false⟩ := by
@@ -319,7 +337,7 @@ theorem kindMod_line {P : Params} (hP : StdParams P) (p : List Char) (k : Gramma
   refine ⟨hnl', ?_, ?_⟩
   · have : p ++ kindMod k = (p ++ [' ', '('] ++ k.name) ++ [')'] := by simp [kindMod]
     rw [this]
-    exact extractExitCode_paren _
+    exact isExitCodeForm_paren _
   · have hw : P.isWhite ' ' = true := by rw [hP.white]; decide
     have hm := Grammar.render_kind_modifier (W := P.isWhite) hw p k false false
     have he : p ++ [' ', '('] ++ k.name ++ Grammar.quantStr false false ++ [')'] = p ++ kindMod k := by
@@ -368,7 +386,7 @@ theorem plain_ok {P : Params} (hP : StdParams P) {l c : List UInt8} {e : List Ch
     (hcr : '\r' ∉ e) : LineOK P l e := by
   have hnl := not_mem_nl_of_utf8 hu hlf
   simp only [looksLikeModifierOrExitCode, Bool.or_eq_false_iff] at hlooks
-  refine ⟨hnl, hlead, extractExitCode_of_not_shaped hlooks.1, fun h => hcr (List.mem_of_getLast? h), ?_⟩
+  refine ⟨hnl, hlead, hlooks.1, fun h => hcr (List.mem_of_getLast? h), ?_⟩
   have hno := Grammar.not_modifier_of_not_endsLike (W := P.isWhite) (white_sub hP) hlooks.2
   refine ⟨_, Grammar.parse_of_no_modifier hnl hno, rfl, rfl, Or.inl rfl, ?_⟩
   show equalMatches e l = true
@@ -641,11 +659,12 @@ theorem line_ok {P : Params} (hP : StdParams P) (m : Mode) (isOther : Char → B
 
 /-! ### how the line parser classifies a generated line -/
 
-/-- below a command, a text that does not start like a command, is no exit code and parses as an
+/-- below a command, a text that does not start like a command, has not the form of an exit code
+line (`^\[[0-9]+\]$`: in range an exit code, out of range an error) and parses as an
 expectation is added to the expectations of the test, whatever the parser's mode and state -/
 theorem addBody_expectation {κ : Type} (expOk : List Char → Bool) (s : LineParser.State κ)
     (t : List Char) (idx : Nat) (hcmd : s.command.isEmpty = false) (hlead : commandLead t = none)
-    (hexit : LineParser.extractExitCode t = none) (hok : expOk t = true) :
+    (hexit : LineParser.isExitCodeForm t = false) (hok : expOk t = true) :
     s.addBody expOk t idx =
       .ok ({ s with inCommand := false, expectations := s.expectations ++ [t] }, .expectation) := by
   obtain ⟨h1, h2⟩ := commandLead_none_strip hlead
@@ -658,6 +677,7 @@ theorem addBody_expectation {κ : Type} (expOk : List Char → Bool) (s : LinePa
   simp only []
   unfold LineParser.State.addBodyRest
   rw [hB]
-  simp [hcmd, hexit, hok]
+  simp [hcmd, LineParser.extractExitCode_of_not_form hexit,
+    LineParser.exitCodeOverflows_of_not_form hexit, hok]
 
 end Scrut.GenLemmas
